@@ -4,9 +4,10 @@
    (3) apply it to /repo, run the registered quick check(s), undo it straight afterwards,
    (4) store patch.diff, the demonstration and meta.json under /verif/seeded/<name>/."""
 import sys, os, subprocess, json, shutil
-pid = sys.argv[1]
+pid = sys.argv[1]          # directory name under /tmp/seeds, e.g. C05 or C05b
+prop = pid[:3]
 name = pid
-checks = [pid]
+checks = [prop]
 args = sys.argv[2:]
 i = 0
 while i < len(args):
@@ -64,7 +65,7 @@ try:
     meta = json.load(open(meta_p))
 except Exception:
     pass
-meta.update({"breaks_property": pid, "confirmed": {"tests_with_change": tests, "demo_exit_with_change": d1.returncode,
+meta.update({"breaks_property": prop, "confirmed": {"tests_with_change": tests, "demo_exit_with_change": d1.returncode,
                                                    "demo_exit_on_repo": d0.returncode, "valid_seed": ok_seed},
              "what_i_ran": ["pytest in the scratch worktree", "demo.py <scratch worktree> / demo.py /repo",
                             "git -C /repo apply patch.diff ; ./check <id> ; git -C /repo checkout -- ."],
